@@ -268,11 +268,95 @@ def judge_wiring(case):
     return j
 
 
+# ---------------------------------------------------------------------------
+# poles placed by construction (including very lightly damped ones)
+# ---------------------------------------------------------------------------
+@st.composite
+def placed_case(draw):
+    n = draw(st.integers(1, 4))
+    nch = draw(st.integers(2, 4))
+    npairs = (n * nch) // 2
+    # distinct frequencies as fractions of the Nyquist frequency, damping ratios log-uniform from 1e-8 to 0.3
+    fr = draw(st.lists(st.integers(1, 94), min_size=npairs, max_size=npairs, unique=True))
+    xi = [10.0 ** draw(st.sampled_from([-8.0, -7.0, -6.0, -5.0, -4.0, -3.0, -2.0, -1.0, -0.5])) * draw(st.floats(1.0, 3.0)) for _ in range(npairs)]
+    return {"n": n, "nch": nch, "nref": draw(st.integers(1, 4)), "fr": [0.01 * f + 0.003 for f in fr], "xi": xi, "real_root": draw(st.floats(0.1, 0.9)) * draw(st.sampled_from([1, -1])),
+            "dt": 10.0 ** draw(st.floats(-3, 1)), "seed": draw(st.integers(0, 2**32 - 1))}
+
+
+def judge_placed(case):
+    j = J()
+    n, nch, nref, dt = case["n"], case["nch"], case["nref"], case["dt"]
+    rng = rng_of(case["seed"])
+    roots, truth = [], []
+    for f, x in zip(case["fr"], case["xi"]):
+        w = f * np.pi / dt
+        lam = complex(-x * w, w * np.sqrt(1 - x * x))
+        roots += [np.exp(lam * dt), np.exp(np.conj(lam) * dt)]
+        truth += [(lam, x), (np.conj(lam), x)]
+    if len(roots) < n * nch:  # odd count: one real root
+        z = case["real_root"]
+        roots.append(complex(z))
+        truth.append((np.log(complex(z)) / dt, None))
+    order = rng.permutation(n * nch)
+    # conjugate pairs must stay in one scalar polynomial: permute pairs, then deal n roots to each channel
+    pairs = [[2 * q, 2 * q + 1] for q in range(len(case["fr"]))]
+    single = [[len(roots) - 1]] if len(roots) % 2 else []
+    groups = [[] for _ in range(nch)]
+    for pr in [pairs[q] for q in rng.permutation(len(pairs))] + single:
+        tgt = [g for g in groups if len(g) + len(pr) <= n]
+        if not tgt:
+            j.skip("roots-do-not-fit")  # odd n with only pairs left
+            return j
+        tgt[0].extend(pr)
+    if any(len(g) != n for g in groups):
+        j.skip("roots-do-not-fit")
+        return j
+    coef = np.array([np.real(np.poly([roots[q] for q in g]))[::-1] for g in groups])  # (nch, n+1), index = power
+    T, _ = np.linalg.qr(rng.normal(size=(nch, nch)))
+    A = np.array([T @ np.diag(coef[:, i]) @ T.T for i in range(n + 1)])
+    B = rng.normal(size=(n + 1, nref, nch))
+    out = sut(plscf.pLSCF_poles, [A.copy()], [B.copy()], dt, "per", 1024)
+    if not j.check(not raised(out), "placed-raises", lambda: f"{out!r}"):
+        return j
+    Fn, Xi, Lam = np.asarray(out[0])[:, 0], np.asarray(out[1])[:, 0], np.asarray(out[3])[:, 0]
+    fin = np.isfinite(Fn)
+    ximin = min(case["xi"])
+    j.tag(f"n={n}", "xi_min<=1e-5" if ximin <= 1e-5 else "xi_min>1e-5")
+    j.nontrivial(ximin <= 1e-4)
+    if not j.check(int(fin.sum()) == n * nch, "placed-count", lambda: f"{int(fin.sum())} poles reported for {n * nch} roots inside the unit circle"):
+        return j
+    got = np.nonzero(fin)[0]
+    used = set()
+    # conditioning probe: how far an independent double-precision eigen-solution of the same polynomial lands from the placed roots
+    mine, _ = _roots(list(A))
+    for (lam, x), z in zip(truth, roots):
+        probe = max(float(np.min(np.abs(mine - z))), 1e-16 * abs(z))
+        tol = PLACED_K * probe / (abs(z) * dt)  # error of lambda = log(z)/dt for an error `probe` of z
+        d = np.abs(Lam[got] - lam)
+        for u in used:
+            d[u] = np.inf
+        k = int(np.argmin(d))
+        used.add(k)
+        r = got[k]
+        if not j.check(d[k] <= tol, "placed-pole", lambda: f"root {lam!r}: nearest reported pole {Lam[r]!r} (tolerance {tol:.2e})"):
+            continue
+        j.check(abs(Fn[r] - abs(lam) / (2 * np.pi)) <= tol, "placed-fn", lambda: f"fn {Fn[r]!r} vs {abs(lam) / (2 * np.pi)!r}")
+        xt = -lam.real / abs(lam)
+        # xi = -Re(lambda)/|lambda|: an error of lambda passes to the damping ratio divided by |lambda|, whatever the size of xi
+        j.check(abs(Xi[r] - xt) <= 2 * tol / abs(lam), "placed-xi", lambda: f"root with damping {xt!r}: reported {Xi[r]!r} (tolerance {2 * tol / abs(lam):.2e})")
+    return j
+
+
+PLACED_K = 1000.0
+
+
 SUBS = [
     Sub("denominator", judge_denominator, poly_case(), quick=200, thorough=8000,
         rule="Sy = B(Omega)A(Omega)^-1 exactly: plscf.pLSCF at order n returns A_i A_0^-1 (sign -1) / A_i A_n^-1 (sign +1) and the matching numerator"),
     Sub("poles", judge_poles, poles_case(), quick=200, thorough=8000,
         rule="plscf.pLSCF_poles / rmfd2ac / ac2mp_poly on known coefficient lists: column n-1 holds exactly the latent roots with Re(log x/dt) <= 0, fn, xi, shape = B(x)v, all else NaN"),
+    Sub("poles_placed", judge_placed, placed_case(), quick=300, thorough=6000,
+        rule="A(z) = T diag(p_k(z)) T^T with scalar polynomials of chosen roots (damping ratios 1e-8..0.6): every root reported once, fn and xi to 1e-10 (absolute for xi)"),
     Sub("class_wiring", judge_wiring, wiring_case(), quick=40, thorough=1000,
         rule="pLSCF through SingleSetup: result.Sy = SD_est, result.Ad = plscf.pLSCF(result.Sy, ...), retained poles = unfiltered poles cell by cell"),
 ]
